@@ -6,6 +6,17 @@ import os
 ROOT = os.path.dirname(os.path.dirname(os.path.abspath(__file__)))
 
 CHECKS = {
+    "C10": dict(
+        cat="model_checking", engine="Extents",
+        text="spec/Extents.tla states Concatenation, SizeIsSum and NoneDropped for extent lists and TLC checks a transcription of "
+             "VMDK.__init__'s offset bookkeeping and read_sectors' bisect walk against them; every enumerated extent list is realised as "
+             "a descriptor plus extent files on disk (FLAT/VMFS raw, SPARSE hosted, VMFSSPARSE COWD, SESPARSE; names with spaces, "
+             "unicode, emoji), as an explicit handle list, and as Parallels storages (plain/expanding, shuffled), and every request "
+             "incl. extent-straddling and disk-tail ones is replayed through read() and read_sectors().",
+        note="trusts TLC, the extent encoders (C02/C06) and the pattern codec; <= 3 extents of <= 3 cells; ZERO extents and flat start "
+             "offsets are outside the property's wording",
+        technique="TLA+ spec + TLC exhaustive enumeration of extent lists, replay into the real readers on disk",
+        design="5/C10"),
     "C07": dict(
         cat="model_checking", engine="Layers",
         text="spec/Layers.tla states the overlay semantics (TopmostWins), MissingParentRejected and FirstCandidateUsed and TLC checks a "
